@@ -72,6 +72,11 @@ def check(chk, repo, tier):
     chk.floor("token kinds", len(kinds), 9)
     LF = repo.mod("lexer").rel
     chk.trusted_base += ["CPython ast", "vystatic.pe constant folder"]
+    # first of all: the probe model is only a model of a lexer that has no
+    # memory; one that has is the violation, and nothing further is decided
+    from ..lexlaws import law_stateless  # noqa: PLC0415
+    if not law_stateless(chk, lp, "C03.lexer-stateless", LF):
+        return
 
     # ---- lexer: kind/value table ------------------------------------------------
     for k in kinds:
@@ -122,8 +127,6 @@ def check(chk, repo, tier):
             "two-character": frm.prefix2, "comment": frm.comment,
             "block comment": frm.block_comment})
     law_total(chk, lp, "C03.lexer-total", LF)
-    from ..lexlaws import law_stateless  # noqa: PLC0415
-    law_stateless(chk, lp, "C03.lexer-stateless", LF)
     # token kinds are distinct values (equal enum values alias each other:
     # CODEPAGE_NUMBER = "number" would *be* NUMBER)
     lmod = repo.mod("lexer")
